@@ -45,27 +45,29 @@ theorem allDistinct_getD (us : List (Option Str)) (hs : ∀ u ∈ us, u.isSome =
 theorem serve_spec (base : Str) (d : DeviceSpec) (hu : urlsOk base d = true) :
     ∀ s ∈ d.allServices, ∃ u, joinOpt base s.scpdURL = some u ∧ serve base d u = renderDoc s.doc := by
   intro s hs
-  simp only [urlsOk, Bool.and_eq_true, List.all_eq_true, List.mem_map, forall_exists_index, and_imp,
-    forall_apply_eq_imp_iff₂, bne_iff_ne, ne_eq] at hu
-  obtain ⟨hall, hdist⟩ := hu
+  simp only [urlsOk, Bool.and_eq_true, List.all_eq_true, Bool.or_eq_true, bne_iff_ne, ne_eq, beq_iff_eq] at hu
+  obtain ⟨hall, hsame⟩ := hu
   have hsome := (hall s hs).1
   have hne := (hall s hs).2
   obtain ⟨u, hu'⟩ := Option.isSome_iff_exists.mp hsome
-  have hnd : (d.allServices.map fun s => joinOpt base s.scpdURL).Nodup := by
-    apply allDistinct_getD
-    · intro x hx
-      obtain ⟨y, hy, rfl⟩ := List.mem_map.mp hx
-      exact (hall y hy).1
-    · have := allDistinct_nodup _ hdist
-      simpa [Function.comp_def] using this
-  have h1 := find_by_key (fun s => joinOpt base s.scpdURL) d.allServices hnd s hs u hu'
   refine ⟨u, hu', ?_⟩
   unfold serve
   have : (u == base) = false := by
     simp only [beq_eq_false_iff_ne, ne_eq]
     intro e; subst e; exact hne hu'
   rw [this]
-  simp only [Bool.false_eq_true, if_false, h1]
+  simp only [Bool.false_eq_true, if_false]
+  cases hf : d.allServices.find? (fun x => joinOpt base x.scpdURL == some u) with
+  | none =>
+    have := List.find?_eq_none.mp hf s hs
+    simp [hu'] at this
+  | some s' =>
+    have hp := List.find?_some hf
+    have hm := List.mem_of_find?_eq_some hf
+    simp only [beq_iff_eq] at hp
+    rcases hsame s' hm s hs with h | h
+    · exact absurd (by rw [hp, hu']) h
+    · simp only [h]
 
 /-! ### well-formed ⇒ `Good` -/
 
@@ -113,11 +115,12 @@ theorem wf_good : ∀ (d : DeviceSpec), d.wf fo tb base = true → (∀ s ∈ d.
     Good fetch base d
   | .mk info icons svcs emb, hw, hs => by
     simp only [DeviceSpec.wf, Bool.and_eq_true, List.all_eq_true] at hw
-    obtain ⟨⟨⟨⟨⟨_, _⟩, hsv⟩, hst⟩, hemb⟩, hdt⟩ := hw
+    obtain ⟨⟨⟨⟨⟨⟨⟨⟨_, _⟩, _⟩, hsv⟩, hid⟩, hnh⟩, hemb⟩, hud⟩, hdt⟩ := hw
     simp only [Good]
     refine ⟨fun s hsm => ⟨hs s (by simp [DeviceSpec.allServices, hsm]), service_wf_distinct fo tb s (hsv s hsm)⟩,
-      allDistinct_nodup _ hst, wfs_goods emb hemb (fun s hsm => hs s (by simp [DeviceSpec.allServices, hsm])),
-      allDistinct_nodup _ hdt⟩
+      ⟨allDistinct_nodup _ hid, fun s hsm => (noHash_iff _).mp (hnh s hsm)⟩,
+      wfs_goods emb hemb (fun s hsm => hs s (by simp [DeviceSpec.allServices, hsm])),
+      ⟨allDistinct_nodup _ hud, fun t ht => (noHash_iff _).mp (hdt t ht)⟩⟩
 theorem wfs_goods : ∀ (l : List DeviceSpec), wfs fo tb base l = true → (∀ s ∈ allServicesL l, Served fetch base s) →
     Goods fetch base l
   | [], _, _ => by simp [Goods]
@@ -239,6 +242,20 @@ theorem mkSchema_ok (row : TypeRow) (strict : Bool) (d : Decl) (hvia : tb.defaul
   obtain ⟨mn, mx⟩ := b
   exact ⟨_, by unfold mkSchema; rw [ha, hb, h3]⟩
 
+theorem mem_allowedTexts (b : Bool) (l : List Str) (t : Str)
+    (h : t ∈ allowedTexts b (l.map fun s => if s.isEmpty then none else some s)) : t ∈ l := by
+  unfold allowedTexts at h
+  obtain ⟨o, ho, hot⟩ := List.mem_filterMap.mp h
+  obtain ⟨s0, hs0, rfl⟩ := List.mem_map.mp ho
+  by_cases he : s0.isEmpty = true
+  · simp only [he, if_true] at hot
+    cases b <;> simp at hot
+    subst hot
+    have : s0 = [] := List.isEmpty_iff.mp he
+    rw [← this]; exact hs0
+  · simp only [he, Bool.false_eq_true, if_false, Option.some.injEq] at hot
+    subst hot; exact hs0
+
 theorem mirrorVar_ok (nonStrict : Bool) (v : VarSpec) (hvia : tb.defaultViaIn = true)
     (hw : VarSpec.wf fo tb v = true) : ∃ m, mirrorVar fo tb nonStrict v = .ok m := by
   unfold VarSpec.wf at hw
@@ -257,7 +274,9 @@ theorem mirrorVar_ok (nonStrict : Bool) (v : VarSpec) (hvia : tb.defaultViaIn = 
       simp only [Bool.and_eq_true, List.all_eq_true] at hty ⊢
       obtain ⟨⟨hdf, hal⟩, hrg⟩ := hty
       obtain ⟨sc, hsc⟩ := mkSchema_ok fo tb row (!nonStrict)
-        { range := v.range.map fun r => (r.1, r.2.1), allowed := v.allowed.map fun l => l.filter (fun s => !s.isEmpty),
+        { range := v.range.map fun r => (r.1, r.2.1),
+          allowed := (v.allowed.map fun l => l.map (fun s => if s.isEmpty then none else some s)).map
+            (allowedTexts (row.ty == .str)),
           default := v.default } hvia
         (by
           intro s hs
@@ -270,7 +289,7 @@ theorem mirrorVar_ok (nonStrict : Bool) (v : VarSpec) (hvia : tb.defaultViaIn = 
               rw [hva] at h1 hal
               simp only [Option.map_some, Option.some.injEq] at h1
               subst h1
-              exact hal s (List.mem_filter.mp h2).1
+              exact (hal s (mem_allowedTexts _ _ _ h2)).1
           · simp only at h1
             cases hvr : v.range with
             | none => rw [hvr] at h1; cases h1
@@ -413,7 +432,7 @@ theorem mirror_error : ∀ (d : DeviceSpec) (nonStrict : Bool) (base : Str) (e :
     d.wf fo tb base = true → mirror fo tb nonStrict base d = .error e → nonStrict = false ∧ e.isXml
   | .mk info icons svcs emb, nonStrict, base, e, hvia, hw, h => by
     simp only [DeviceSpec.wf, Bool.and_eq_true, List.all_eq_true] at hw
-    obtain ⟨⟨⟨⟨⟨_, hic⟩, hsv⟩, _⟩, hemb⟩, _⟩ := hw
+    obtain ⟨⟨⟨⟨⟨⟨⟨⟨_, _⟩, hic⟩, hsv⟩, _⟩, _⟩, hemb⟩, _⟩, _⟩ := hw
     rw [mirror] at h
     obtain ⟨ic, hicm⟩ := mapE_ok (mirrorIcon base) icons (fun i hi => mirrorIcon_ok base i (hic i hi))
     simp only [hicm] at h
